@@ -2584,6 +2584,7 @@ static int next_token(struct scanner_s *scanner) {
                     }
                 } else {
                     /* as the default case, but we can't fall through */
+                    BACK_UP(scanner);
                     result = scan_unquoted(scanner);
                     ttype = VALUE;
                 }
